@@ -12,11 +12,13 @@ mod c06;
 mod c07;
 mod c08;
 mod c09;
+mod c10;
 mod c11;
 mod c12;
 mod c13;
 mod c14;
 mod c15;
+mod c16;
 mod c17;
 mod c18;
 mod c19;
@@ -91,11 +93,13 @@ fn main() {
         "C07" => c07::run(&ctx),
         "C08" => c08::run(&ctx),
         "C09" => c09::run(&ctx),
+        "C10" => c10::run(&ctx),
         "C11" => c11::run(&ctx),
         "C12" => c12::run(&ctx),
         "C13" => c13::run(&ctx),
         "C14" => c14::run(&ctx),
         "C15" => c15::run(&ctx),
+        "C16" => c16::run(&ctx),
         "C17" => c17::run(&ctx),
         "C18" => c18::run(&ctx),
         "C19" => c19::run(&ctx),
